@@ -180,3 +180,7 @@ def zcheck(solver, timeout_ms):
         return z3.unknown
     finally:
         t.cancel()
+
+# str(v) succeeds for a plain value: false only when v holds an integer with more digits than the interpreter will write
+# (sys.get_int_max_str_digits(), ValueError since CPython 3.11)
+str_ok = z3.Function('str_ok', V, z3.BoolSort())
